@@ -16,6 +16,8 @@ def process_level(res, tier):
     pats = {"single": [1e-3], "two": [1e-3, 1e-3], "gap": [1e-3, 0, 1e-3], "trailing-empty": [1e-3, 0], "three-unequal": [1e-3, 2e-3, 5e-4]}
     if vlib.wide(tier):
         pats.update({"leading-empty": [0, 1e-3], "four": [1e-3, 1e-3, 0, 1e-3]})
+    if vlib.deep(tier):
+        pats.update({"seven-buckets-six-bunches": [1e-3, 2e-3, 0, 1e-3, 5e-4, 1e-3, 2e-3], "eight-equal": [1e-3] * 8})
     # (RF model, interpolation points, Fokker-Planck variant)
     variants = [("linear", 4, 3), ("sin", 3, 3), ("linear", 3, 0), ("sin", 4, 1), ("linear", 2, 2)] if vlib.wide(tier) else [("linear", 4, 3), ("sin", 3, 0)]
     jobs = [(k, rf, it, fp) for k in pats for rf, it, fp in variants]
